@@ -166,7 +166,7 @@ reg("C10", "fault_enumeration",
 
 reg("C20", "model_checking",
     "stateless preemption-bounded search over two hand-stepped event loops (owner / caller) driving the real ThreadsafeProxy, plus line-level close/stop inside the dispatch function",
-    "Every interleaving with <= 2 (thorough 3) preemptions / owner stop / owner close of the two loops' callbacks, for every method kind (coroutine returning / raising, plain returning None / a "
+    "Every interleaving with <= 4 (thorough 6) preemptions / owner stop / owner close of the two loops' callbacks, for every method kind (coroutine returning / raising, plain returning None / a "
     "value / raising, non-callable attribute) x issuing loop {other, owner} x wrapper looked up under {same, other} loop x owner initially {running, closed}, and for bursts of 3-5 concurrent calls; "
     "plus owner close/stop between any two lines of func_wrapper. Judged: probe bodies observe the owner loop as the running loop, results/exceptions relayed, plain calls return None at once and "
     "run exactly once, non-None result -> TypeError on the owner, direct execution from the owner loop, closed loop -> dropped without executing or blocking.",
